@@ -91,28 +91,8 @@ Definition look (e : env) (bt : btable) (q : req) (total : N) : outcome lobs :=
 
 Definition not_panic {A} (o : outcome A) : bool := negb (is_panic o).
 
-(* ---- finding regions of an input (decided on the model's route states; evaluated only when the
-        specification fails) ---- *)
-Definition nonfinite_fixed (fixed : list f64) : bool := negb (forallb f64_finite fixed).
-Definition region_of_routes (rs : list route) : option N :=
-  if existsb (fun r => F_C02_negative_slots (fixed_of r) && nonfinite_fixed (fixed_of r)) rs then Some 1
-  else if existsb (fun r => F_C02_negative_slots (fixed_of r)) rs then Some 3
-  else if existsb (fun r => F_C02_empty_ring (fixed_of r)) rs then Some 2
-  else None.
-(* a weight of a command that is not finite / is positive and outside [2^-1000, 2^1000]: the inputs
-   a repair of F-C02-1..3 has to treat differently (same idea as C04's [edge_input]) *)
-Definition edge_wt (w : wt) : bool :=
-  match w with
-  | WZ => false
-  | WP _ e | WN _ e => negb (f64_finite (wt_f64 w)) || (e <? -1052)%Z || (948 <? e)%Z
-  end.
-Definition region_of_defs (e : env) (ds : list def) : option N :=
-  match region_of_routes (reached (canon_of e) (glob_of e) [] ds) with
-  | Some k => Some k
-  | None => if existsb (fun d => negb (f64_finite (wt_f64 (d_w d)))) ds then Some 1
-            else if existsb (fun d => edge_wt (d_w d)) ds then Some 3
-            else None
-  end.
+(* ---- no finding regions: since /repo 290c777 / c9fb527 no generated input may make NewTable, a
+        lookup or an update loop panic; any such panic is a plain violation ---- *)
 (* [verdict], with the region computed only where it is consulted *)
 Definition verdict_lazy (same spec nontrivial : bool) (region : unit -> option N) : N :=
   if same && spec then (if nontrivial then v_agree else v_agree_trivial)
@@ -151,7 +131,7 @@ Definition check_build (e : env) (bo : outcome btable) (ds : outcome (list def))
                 end in
   let spec := not_panic impl && forallb (fun ql => not_panic (snd ql)) lookups in
   verdict_lazy (same_b && same_l) spec nontrivial
-    (fun _ => match ds with Ok l => region_of_defs e l | _ => None end).
+    (fun _ => None).
 
 Definition text_of (texts : list str) (i : nat) : str := nth i texts [].
 
@@ -190,22 +170,7 @@ Definition check_case (c : case) : N :=
       let spec := list_eqb (opt_eqb tobs_eqb) impl exp
                   && forallb (fun c => match c with (_, _, o) => not_panic o end) cands in
       verdict_lazy same spec (existsb (fun c => match c with (_, _, Err _) => true | _ => false end) cands)
-        (fun _ =>
-           (* the region of the first candidate the model crashes on *)
-           let fix first_region (cs : list (nat * nat * outcome tobs)) : option N :=
-               match cs with
-               | [] => None
-               | (si, mi, _) :: cs' =>
-                   let t := Watch.next_text (text_of texts si) (text_of texts mi) in
-                   match parse (pweight_of e) t with
-                   | Ok l => match region_of_defs e l with
-                             | Some k => Some k
-                             | None => first_region cs'
-                             end
-                   | _ => first_region cs'
-                   end
-               end in
-           first_region cands)
+        (fun _ => None)
   | CSched e texts sched impl =>
       let tables := map (fun t => match fb e t with Ok bt => Some bt | _ => None end) texts in
       let acts := map (fun a => match a with
